@@ -185,7 +185,12 @@ type frameRec struct {
 	state  int // 1 = handed out, 2 = released
 	relPCs []uintptr
 	getEv  int64
+	// buf: the backing array of a poisoned frame, kept so that a write through a slice
+	// somebody retained shows at the end of the run (the first keepPoisoned frames of a pool)
+	buf []byte
 }
+
+const keepPoisoned = 1024
 
 // TrackPool is installed through ConnectionOptions.FramePool on every node.
 type TrackPool struct {
@@ -200,6 +205,7 @@ type TrackPool struct {
 	// not poisoned; double releases are still detected.
 	Reuse bool
 	free  []*tchannel.Frame
+	kept  int
 	hb    uint64 // race builds: release -> get edge, as a sync.Pool gives
 }
 
@@ -250,8 +256,32 @@ func (p *TrackPool) Release(f *tchannel.Frame) {
 		return
 	}
 	if !p.w.NoPoison {
+		if p.kept < keepPoisoned {
+			p.kept++
+			r.buf = tchannel.VerifFrameBytes(f)
+		}
 		tchannel.VerifPoisonFrame(f)
 	}
+}
+
+// WrittenAfterRelease looks at the frames this pool poisoned: every byte of a released frame
+// must still carry the poison pattern at the end of the run. A different byte was written
+// through a buffer, chunk or slice somebody kept after handing the frame back.
+func (p *TrackPool) WrittenAfterRelease() []string {
+	var out []string
+	for _, r := range p.frames {
+		if r.state != 2 || r.buf == nil {
+			continue
+		}
+		for i, b := range r.buf {
+			if b != 0xA5 {
+				out = append(out, fmt.Sprintf("node %s: byte %d of a frame was written (%#x) after the frame had been released\nreleased at:\n%s", p.node, i, b, stackString(r.relPCs)))
+				break
+			}
+		}
+	}
+	sort.Strings(out)
+	return out
 }
 
 // Outstanding returns the number of frames handed out and never released.
